@@ -27,6 +27,7 @@ import (
 	"github.com/cilium/ebpf"
 	"github.com/daeuniverse/dae/common/consts"
 	"github.com/daeuniverse/dae/component/outbound/dialer"
+	"golang.org/x/sys/unix"
 )
 
 type c03Flow struct {
@@ -48,7 +49,25 @@ type c03In struct {
 	// Recov: earlier redirected packets whose handling by dae was deferred; dae recovers their routing
 	// result now, in this order, before the packet of Flows, on ONE instance of the maps.
 	Recov []c03Flow `json:"recov"`
+	// Jan: one sweep of the conn_state_map janitor over these entries (selection only)
+	Jan *c03JanIn `json:"jan"`
 	Now    uint64      `json:"now"`
+}
+
+type c03JanEntry struct {
+	Sip   string `json:"sip"`
+	Dip   string `json:"dip"`
+	Sport uint16 `json:"sport"`
+	Dport uint16 `json:"dport"`
+	Proto uint8  `json:"proto"`
+	State uint8  `json:"state"`
+	Last  uint64 `json:"last"`
+}
+type c03JanIn struct {
+	Sample     uint64        `json:"sample"`
+	Aggressive bool          `json:"aggressive"`
+	Stale      uint64        `json:"stale"`
+	Entries    []c03JanEntry `json:"entries"`
 }
 
 type c03Res struct {
@@ -102,6 +121,41 @@ func TestVerifC03(t *testing.T) {
 		var in c03In
 		if err := json.Unmarshal(line, &in); err != nil {
 			return map[string]any{"error": err.Error()}
+		}
+		if in.Jan != nil {
+			// the selection part of ControlPlane.cleanupConnStateMapBeforeLocked, lifted as source text
+			// (zz_verif_c03_lifted_test.go: c03JanitorSelect), on real bpfTuplesKey / bpfConnState values,
+			// with the clock read replaced by the case's sample
+			keys := make([]bpfTuplesKey, 0, len(in.Jan.Entries))
+			vals := make([]bpfConnState, 0, len(in.Jan.Entries))
+			for _, e := range in.Jan.Entries {
+				src, err1 := c03AddrPort(e.Sip, e.Sport)
+				dst, err2 := c03AddrPort(e.Dip, e.Dport)
+				if err1 != nil || err2 != nil {
+					return map[string]any{"error": "bad janitor entry address"}
+				}
+				keys = append(keys, bpfTuplesKeyFromAddrPorts(src, dst, e.Proto))
+				var v bpfConnState
+				v.State = e.State
+				v.LastSeenNs = e.Last
+				vals = append(vals, v)
+			}
+			c03Clock = in.Jan.Sample
+			udpDel, tcpDel, _, _ := c03JanitorSelect(in.Jan.Aggressive, in.Jan.Stale, keys, vals)
+			sel := make([]bool, len(keys))
+			for _, d := range append(append([]bpfTuplesKey{}, udpDel...), tcpDel...) {
+				found := false
+				for i := range keys {
+					if keys[i] == d && !sel[i] {
+						sel[i], found = true, true
+						break
+					}
+				}
+				if !found {
+					return map[string]any{"error": "janitor selected a key that is not in the map"}
+				}
+			}
+			return map[string]any{"jan": sel}
 		}
 		if in.Slots != nil {
 			keys := make([]uint32, 0, len(in.Slots))
@@ -230,6 +284,18 @@ func TestVerifC03(t *testing.T) {
 var c03Clock uint64
 
 func c03MonotonicNowNano() (uint64, error) { return c03Clock, nil }
+
+func c03ClockGettime(ts *unix.Timespec) error {
+	ts.Sec = int64(c03Clock / 1000000000)
+	ts.Nsec = int64(c03Clock % 1000000000)
+	return nil
+}
+
+type c03JanLog struct{}
+
+func (c03JanLog) Errorf(format string, args ...any) {}
+
+type c03JanCtx struct{ log c03JanLog }
 
 type c03Map struct{ m map[string][]byte }
 
